@@ -183,6 +183,7 @@ class Parameter(AnnotatedValue):
             elif (
                 isinstance(value, AnnotatedValue)
                 and value.kind == ParamType.FLOAT
+                and hasattr(value, "value")  # a let constant, not a parameter
                 and float(value.value).is_integer()
             ):
                 pass
